@@ -28,3 +28,15 @@ Fixpoint eanswers (mine : string) (s : estore) (ops : list eop) : list bool :=
 (* the controller key: namespace/name of the BatchRelease (canary.go: client.ObjectKeyFromObject(release).String();
    batchrelease_event_handler.go: getControllerKey) *)
 Definition controller_key (ns name : string) : string := (ns ++ "/" ++ name)%string.
+
+(* names of generated objects: getCanaryServiceName (pkg/trafficrouting/manager.go) and the canary Ingress name *)
+Definition canary_service_name (stable : string) : string := (stable ++ "-canary")%string.
+
+(* the registry of dynamically watched workload types (rollout_controller.go: watchedWorkload / AddWatcherDynamically): one
+   Rollout reconcile of a workload type [g]; [watch_ok]: does registering the watch succeed *)
+Inductive wres := WProceed | WWatchedNow | WError.
+Definition watch_step (watched : list string) (g : string) (watch_ok : bool) : wres * list string :=
+  if existsb (String.eqb g) watched then (WProceed, watched)
+  else if watch_ok then (WWatchedNow, g :: watched) else (WError, watched).
+Fixpoint watch_run (watched : list string) (ops : list (string * bool)) : list wres :=
+  match ops with [] => [] | (g, ok) :: t => let '(r, w') := watch_step watched g ok in r :: watch_run w' t end.
